@@ -220,21 +220,47 @@ def rule_server(ctx):
         if not used:
             ctx.ob("C20.SRV", c, f"parse_command log `{src(c)[:50]}` depends on the line at most through len()", True)
             continue
-        guards = all_guards(p, c, pc)
-        ok = False
+        # every place where the secret enters the logged value (directly, or through the local definitions of the logged names:
+        # `shown = "*" * len(rest) if censored else rest`) must lie on the non-censored side of the censor test
+        leaves = []
+
+        def occurrences(expr, seen):
+            def rec(n, shielded):
+                if isinstance(n, ast.Call) and isinstance(n.func, ast.Name) and n.func.id == "len":
+                    for a in n.args:
+                        rec(a, True)
+                    return
+                if isinstance(n, ast.Name) and n.id in t_secret and not shielded:
+                    defs = [d_ for d_ in walk_no_nested(pc) if isinstance(d_, ast.Assign) and len(d_.targets) == 1 and isinstance(d_.targets[0], ast.Name) and d_.targets[0].id == n.id]
+                    other = [d_ for d_ in local_defs(pc, n.id) if not (d_[0] == "assign" and d_[2] in defs)]
+                    if defs and not other and n.id not in seen and not any(isinstance(d_.value, ast.Await) for d_ in defs):
+                        for d_ in defs:
+                            occurrences(d_.value, seen | {n.id})
+                    else:
+                        leaves.append(n)
+                for ch in ast.iter_child_nodes(n):
+                    rec(ch, shielded)
+            rec(expr, False)
+        for a in sink_args(c):
+            occurrences(a, frozenset())
         saw_censor = False
-        for tst, pol in guards:
-            if isinstance(tst, ast.Compare) and len(tst.ops) == 1 and isinstance(tst.ops[0], (ast.In, ast.NotIn)) and isinstance(tst.comparators[0], ast.Name) \
-                    and tst.comparators[0].id == censor_param:
-                saw_censor = True
-                not_in = (isinstance(tst.ops[0], ast.In) and not pol) or (isinstance(tst.ops[0], ast.NotIn) and pol)
-                if not_in and src(expand(p, tst.left, pc)) == dk:
-                    ok = True
+
+        def censored_side(node):
+            nonlocal saw_censor
+            for tst, pol in all_guards(p, node, pc) + all_guards(p, c, pc):
+                if isinstance(tst, ast.Compare) and len(tst.ops) == 1 and isinstance(tst.ops[0], (ast.In, ast.NotIn)) and isinstance(tst.comparators[0], ast.Name) \
+                        and tst.comparators[0].id == censor_param:
+                    saw_censor = True
+                    not_in = (isinstance(tst.ops[0], ast.In) and not pol) or (isinstance(tst.ops[0], ast.NotIn) and pol)
+                    if not_in and src(expand(p, tst.left, pc)) == dk:
+                        return True
+            return False
+        ok = bool(leaves) and all(censored_side(n) for n in leaves)
         why = ("the censor test uses a different key than the dispatch key " + dk) if saw_censor and not ok else "it is not confined to the non-censored branch"
         ctx.ob("C20.SRV", c, f"parse_command log `{src(c)[:50]}` receives the argument only on the non-censored branch", ok,
                f"log call receives {sorted(used)} (may contain the password): {why}", construct=f"parse_command:{src(c)[:70]}")
-    if n_sites < 2:
-        ctx.floor_errors.append(f"rule=C20.SRV: {n_sites} log sites in parse_command (floor 2)")
+    if n_sites < 1:
+        ctx.floor_errors.append(f"rule=C20.SRV: {n_sites} log sites in parse_command (floor 1)")
     # the censor set is not reassigned/mutated
     for n in walk_no_nested(pc):
         if isinstance(n, ast.Assign) and any(isinstance(tg, ast.Name) and tg.id == censor_param for tg in n.targets):
@@ -466,7 +492,7 @@ def rule_client(ctx):
         for n in walk_no_nested(fn_):
             if censor_p and isinstance(n, ast.Assign) and any(isinstance(t_, ast.Name) and t_.id == censor_p for t_ in n.targets):
                 ctx.fail("C20.CLI", n, f"censor_after is reassigned inside {label}", construct="command:censor_after reassigned")
-    if n_sites < 2:
+    if n_sites < 1:
         ctx.floor_errors.append(f"rule=C20.CLI: {n_sites} log sites in command() and its helpers (floor 2)")
 
 
